@@ -19,7 +19,8 @@ Inductive laction :=
 | LFlush (k : nat) (ts_ok spl_ok : bool)
 | LEnd (k : nat) (ts_ok spl_ok : bool)
 | LAbort (k : nat)
-| LReset.
+| LReset
+| LEvict (k : nat).
 
 Definition lstreams_of (a : laction) : list lstream :=
   match a with LPush ss _ _ | LPushBad ss | LBegin ss | LMore _ ss => ss | _ => [] end.
@@ -38,6 +39,7 @@ Section FP.
     | LEnd k a b => End k a b
     | LAbort k => Abort k
     | LReset => CacheReset
+    | LEvict k => CacheEvict k
     end.
   Definition lrun (h : list laction) : state := run init (map to_action h).
 End FP.
